@@ -73,3 +73,17 @@ def OR():
     ps.TaskStartAt(task=t, value=10)
     return bool(ps.SchedulingSolver(problem=pb).solve())
 print("Or([3 <= s <= 5]) with s pinned at 10: expected False got", quiet(OR))
+import processscheduler as ps, io, contextlib
+def quiet(f):
+    with contextlib.redirect_stdout(io.StringIO()):
+        return f()
+def TG():
+    pb = ps.SchedulingProblem(name="tg", horizon=20)
+    a = ps.FixedDurationTask(name="a", duration=2); b = ps.FixedDurationTask(name="b", duration=2); c = ps.FixedDurationTask(name="c", duration=2)
+    g = ps.UnorderedTaskGroup(list_of_tasks=[a, b], optional=True)
+    try:
+        ps.TaskPrecedence(task_before=g, task_after=c)
+        return "accepted"
+    except Exception as e:
+        return f"EXC {type(e).__name__}: {e}"
+print("TaskPrecedence(optional group, task): expected accepted, got", quiet(TG))
